@@ -22,6 +22,12 @@ pub fn run(case: &serde_json::Value, out: &mut String) {
             Err(_) => writeln!(out, "SCHEDPANIC {}", label).unwrap(),
         }
     }
+    // the decoded flow tours per type (input of Schedule::from_tours), recorded by the mcf hook
+    for l in solver::verif_hooks::take_mcf() {
+        if l.starts_with("MCFTYPE") || l.starts_with("FTOUR") {
+            writeln!(out, "{}", l).unwrap();
+        }
+    }
     match r {
         Err(_) => {
             writeln!(out, "solve PANIC").unwrap();
